@@ -20,6 +20,7 @@ Inductive hflag := FReraise (* self.reraise *) | FCheck (* parameter check of ca
 Inductive hcond :=
 | CTypeNone (t : tslot)                 (* t is None *)
 | CValNone (v : vslot)                  (* v is None *)
+| CFalsy (v : vslot)                    (* not v   — truth value of the object, NOT the same as `v is None` *)
 | CFlag (f : hflag)
 | CTbDiffers (v : vslot) (b : bslot)    (* v.__traceback__ is not b *)
 | CSame (v w : vslot)                   (* v is w *)
@@ -48,6 +49,10 @@ Inductive hstmt :=
 | SReturnSelf                            (* return self *)
 | SReturnPred (v : vslot)                (* return self._should_ignore_ex(v) *)
 | SForce.                                (* self.force_reraise() *)
+
+(* exception_filter.__init__: is the predicate attribute stored before or after functools.update_wrapper
+   (whose __dict__ merge can overwrite it) *)
+Inductive init_order := AssignThenWrap | WrapThenAssign.
 
 (* which exceptions an except clause catches *)
 Inductive catchkind := CatchException | CatchBaseException.
